@@ -3,20 +3,8 @@ import Driver.Parse
 /-! `load` channel: the loader model driven like the harness drives `dr::Loader` -/
 open Rspirv Rspirv.Model
 
-def reflectBit (i : Nat) (o : Nat) : Bool :=
-  Rspirv.Generated.Extracted.reflectTable.any (fun r => r.1 == o && r.2.testBit i)
-
-open Rspirv.Generated.Operands in
-def theLTables : LTables :=
-  { opCapability := op_Capability, opExtension := op_Extension, opExtInstImport := op_ExtInstImport
-    opMemoryModel := op_MemoryModel, opEntryPoint := op_EntryPoint, opExecutionMode := op_ExecutionMode
-    opExecutionModeId := op_ExecutionModeId, opString := op_String, opSourceExtension := op_SourceExtension
-    opSource := op_Source, opSourceContinued := op_SourceContinued, opName := op_Name, opMemberName := op_MemberName
-    opModuleProcessed := op_ModuleProcessed, opVariable := op_Variable, opUndef := op_Undef
-    opFunction := op_Function, opFunctionEnd := op_FunctionEnd, opFunctionParameter := op_FunctionParameter
-    opLabel := op_Label
-    isLocationDebug := reflectBit 0, isAnnotation := reflectBit 3, isType := reflectBit 4
-    isConstant := reflectBit 5, isBlockTerminator := reflectBit 11 }
+abbrev reflectBit := Rspirv.Instances.reflectBit
+abbrev theLTables : LTables := Rspirv.Instances.theLTables
 
 def showInsts (l : List Inst) : String := if l.isEmpty then "-" else "|".intercalate (l.map showInst)
 def showOptInst : Option Inst → String
